@@ -1,6 +1,8 @@
 import PynProps.C05
 import PynProofs.Search
 import PynModel.Kernels.Process
+import PynProps.C06
+import PynProps.C15
 /-!
 # C16 — correlograms and peri-event alignment report true lags to the reference events
 Models: `Pyn.crossCorrelogram` (`_cross_correlogram`, doubled integer times so that the half-bin
@@ -11,11 +13,14 @@ Proved: the peri-event window (`compute_perievent`), and that **the correlogram 
 lags** (`xcorr_histogram`: for sorted trains of any lengths the raw count of bin `p` is the number of
 (reference, target) pairs whose lag lies in the half-open bin `[(p − N/2)·b, (p + 1 − N/2)·b)`, via the
 sliding lower index `ccFwd_spec` / `ccBack_id`, the bin scan `ccCount_counts`, `ccBins_counts`,
-`ccOuter_counts`).  Normalisations and the nearest-sample search of the continuous peri-event are
-decided by oracle + correspondence (safety of that kernel: C15 `pericont_safe`).
+`ccOuter_counts`).  Continuous peri-event (`_jitcontinuous_perievent`): `pcK_entries` — for the e-th event of
+epoch k the stored slice is taken around a NEAREST sample of THAT epoch's samples (`pcInner_closest`, `pcI_nearest`,
+cursor invariant across events as in C06), clipped to the epoch, and `pc_layout` — row o of the window holds the
+sample o − w0 steps from it iff that position lies inside the epoch, else NaN; events of an epoch without samples
+keep all-NaN columns.  Normalisations are decided by oracle + correspondence (safety: C15 `pericont_safe`).
 -/
 namespace Pyn.C16
-open Pyn
+open Pyn Pyn.C06
 
 /-- **compute_perievent window.** `_align_tsd` slices `tsd.index[lb:rb]` with
 `lb = searchsorted(t, r - w0)`, `rb = searchsorted(t, r + w1)` (both side="left").  For sorted
@@ -265,5 +270,230 @@ theorem xcorr_histogram (t1 t2 : Array Int) (hs1 : Sorted t1) (hs2 : Sorted t2) 
 doubled units) falls in the upper bin -/
 example : crossCorrelogram #[0, 10] #[1, 2, 11] 1 3 = #[0, 0, 0, 0, 2, 1, 0] := by decide +kernel
 example : crossCorrelogram #[0] #[1] 2 2 = #[0, 0, 1] := by decide +kernel   -- lag 1 = edge between bin 0 and bin +2
+
+
+/-! ## compute_perievent_continuous: nearest sample of the same epoch, window clipped to the epoch -/
+
+/-- the inner scan of `_jitcontinuous_perievent`: from the cursor it walks while the distance to the event does not
+increase and stops at the first strict increase (or at the end of the epoch's samples) -/
+theorem pcInner_closest (ts : Array Int) (x : Int) (maxt : Nat) (hm : maxt ≤ ts.size) (t : Nat) (interval : Int)
+    (tpos : Nat) (ht1 : 1 ≤ t) (ht : t ≤ maxt) (hp : tpos = t - 1) (hint : interval = D ts x (t - 1)) :
+    (pcInner ts x maxt hm t interval tpos).1 = (pcInner ts x maxt hm t interval tpos).2 + 1 ∧
+    t - 1 ≤ (pcInner ts x maxt hm t interval tpos).2 ∧ (pcInner ts x maxt hm t interval tpos).2 < maxt ∧
+    (∀ q, t - 1 ≤ q → q ≤ (pcInner ts x maxt hm t interval tpos).2 →
+        D ts x (pcInner ts x maxt hm t interval tpos).2 ≤ D ts x q) ∧
+    ((pcInner ts x maxt hm t interval tpos).2 + 1 < maxt →
+        D ts x (pcInner ts x maxt hm t interval tpos).2 < D ts x ((pcInner ts x maxt hm t interval tpos).2 + 1)) := by
+  induction hn : maxt - t generalizing t interval tpos with
+  | zero =>
+    unfold pcInner
+    have : ¬ t < maxt := by omega
+    simp only [dif_neg this]
+    subst hp
+    exact ⟨by omega, Nat.le_refl _, by omega, fun q h1 h2 => by
+      have : q = t - 1 := by omega
+      subst this; exact Int.le_refl _, fun h => by omega⟩
+  | succ n ih =>
+    have hlt : t < maxt := by omega
+    unfold pcInner
+    simp only [dif_pos hlt]
+    have hnew : (((ts[t]'(by omega) - x).natAbs : Int)) = D ts x t := by rw [D_eq ts x t (by omega)]
+    simp only [hnew]
+    by_cases hb : D ts x t > interval
+    · simp only [hb, if_true]
+      subst hp
+      refine ⟨by omega, Nat.le_refl _, by omega, fun q h1 h2 => by
+        have : q = t - 1 := by omega
+        subst this; exact Int.le_refl _, fun _ => ?_⟩
+      have e : t - 1 + 1 = t := by omega
+      rw [e, ← hint]; exact hb
+    · simp only [hb, if_false]
+      obtain ⟨a1, a2, a3, a4, a5⟩ := ih (t+1) (D ts x t) t (by omega) (by omega) (by simp) (by simp) (by omega)
+      refine ⟨a1, by omega, a3, ?_, a5⟩
+      intro q h1 h2
+      by_cases hq : q = t - 1
+      · subst hq
+        have := a4 t (by simp) (by simpa using a2)
+        rw [← hint]; omega
+      · exact a4 q (by simp; omega) h2
+
+/-- what the kernel stores for an event at time `x` in an epoch whose samples are the positions `[startT, maxt)`:
+the slice `[lo, hi)` of samples around a NEAREST sample `tpos` of the epoch, clipped to the epoch, and the row
+`start_w` at which the slice is written in the `(w0 + w1 + 1)`-row window -/
+def PcEntry (ts : Array Int) (w0 w1 startT maxt : Nat) (x : Int) (e : Nat × Nat × Nat) : Prop :=
+  ∃ tpos, startT ≤ tpos ∧ tpos < maxt ∧ (∀ q, startT ≤ q → q < maxt → D ts x tpos ≤ D ts x q) ∧
+    e = (tpos - min w0 (tpos - startT), tpos + min w1 (maxt - tpos - 1) + 1, w0 - min w0 (tpos - startT))
+
+theorem pcI_nearest (ts tt : Array Int) (hsq : Sorted ts) (hst : Sorted tt) (w0 w1 startT maxt maxi : Nat)
+    (hmt : maxt ≤ ts.size) (hmi : maxi ≤ tt.size) (t i : Nat) (ht : t < maxt) (hlo : startT ≤ t)
+    (out0 : Array (Nat × Nat × Nat))
+    (hleft : (hi : i < maxi) → ∀ q, startT ≤ q → q < t → D ts (tt[i]'(by omega)) t ≤ D ts (tt[i]'(by omega)) q) :
+    (pcI ts tt w0 w1 startT maxt maxi hmt hmi t i ht out0).size = out0.size + (maxi - i) ∧
+    (∀ k, (hk : k < out0.size) → (hk2 : k < (pcI ts tt w0 w1 startT maxt maxi hmt hmi t i ht out0).size) →
+      (pcI ts tt w0 w1 startT maxt maxi hmt hmi t i ht out0)[k] = out0[k]) ∧
+    ∀ d, (hd : i + d < maxi) → (hk : out0.size + d < (pcI ts tt w0 w1 startT maxt maxi hmt hmi t i ht out0).size) →
+      PcEntry ts w0 w1 startT maxt (tt[i + d]'(by omega)) (pcI ts tt w0 w1 startT maxt maxi hmt hmi t i ht out0)[out0.size + d] := by
+  induction hn : maxi - i generalizing t i out0 with
+  | zero =>
+    unfold pcI
+    have : ¬ i < maxi := by omega
+    simp only [dif_neg this]
+    exact ⟨by omega, fun k hk hk2 => trivial, fun d hd => by omega⟩
+  | succ n ih =>
+    have hi : i < maxi := by omega
+    unfold pcI
+    simp only [dif_pos hi]
+    have hint : (((ts[t]'(by omega) - tt[i]'(by omega)).natAbs : Int)) = D ts (tt[i]'(by omega)) t := by
+      rw [D_eq ts _ t (by omega)]
+    simp only [hint]
+    obtain ⟨a1, a2, a3, a4, a5⟩ := pcInner_closest ts (tt[i]'(by omega)) maxt hmt (t+1) (D ts (tt[i]'(by omega)) t) t
+      (by omega) (by omega) (by simp) (by simp)
+    simp only [Nat.add_sub_cancel] at a2 a4
+    obtain ⟨r, hr⟩ : ∃ r, r = pcInner ts (tt[i]'(by omega)) maxt hmt (t+1) (D ts (tt[i]'(by omega)) t) t := ⟨_, rfl⟩
+    rw [← hr] at a1 a2 a3 a4 a5
+    -- optimality of r.2 over the whole epoch
+    have hopt : ∀ q, startT ≤ q → q < maxt → D ts (tt[i]'(by omega)) r.2 ≤ D ts (tt[i]'(by omega)) q := by
+      intro q hq1 hq2
+      have hjt : D ts (tt[i]'(by omega)) r.2 ≤ D ts (tt[i]'(by omega)) t := a4 t (Nat.le_refl _) a2
+      by_cases hqt : q < t
+      · have := hleft hi q hq1 hqt; omega
+      · by_cases hqj : q ≤ r.2
+        · exact a4 q (by omega) hqj
+        · have hj1 : r.2 + 1 < maxt := by omega
+          have hgrow := a5 hj1
+          rw [D_eq ts _ r.2 (by omega), D_eq ts _ (r.2+1) (by omega)] at hgrow
+          rw [D_eq ts _ r.2 (by omega), D_eq ts _ q (by omega)]
+          have m1 := hsq r.2 (r.2+1) (by omega) (by omega) (by omega)
+          have m2 := hsq (r.2+1) q (by omega) (by omega) (by omega)
+          omega
+    have hcur : r.1 - 1 = r.2 := by omega
+    have key := ih (r.1 - 1) (i+1) (by omega) (by omega)
+      (out0.push (r.2 - min w0 (r.2 - startT), r.2 + min w1 (maxt - r.2 - 1) + 1, w0 - min w0 (r.2 - startT)))
+      (fun hi' q hq1 hq2 => by
+        rw [hcur] at hq2 ⊢
+        rw [D_eq ts _ r.2 (by omega), D_eq ts _ q (by omega)]
+        have h0 := hopt q hq1 (by omega)
+        rw [D_eq ts _ r.2 (by omega), D_eq ts _ q (by omega)] at h0
+        exact left_invariant ts[q] ts[r.2] tt[i] tt[i+1] (hsq q r.2 (by omega) (by omega) (by omega))
+          (hst i (i+1) (by omega) (by omega) (by omega)) h0)
+      (by omega)
+    subst hr
+    obtain ⟨b1, bp, b2⟩ := key
+    refine ⟨by rw [b1]; simp; omega, fun k hk hk2 => ?_, fun d hd hk => ?_⟩
+    · rw [bp k (by simp; omega) hk2, Array.getElem_push_lt hk]
+    rcases Nat.eq_zero_or_pos d with h0 | hpos
+    · subst h0
+      have := bp out0.size (by simp) (by simpa using hk)
+      simp only [Nat.add_zero] at hk ⊢
+      rw [this]
+      simp only [Array.getElem_push_eq]
+      exact ⟨_, by omega, a3, hopt, rfl⟩
+    · have := b2 (d - 1) (by omega) (by rw [b1]; simp; omega)
+      have e1 : i + 1 + (d - 1) = i + d := by omega
+      simp only [e1, Array.size_push] at this
+      have e2 : out0.size + 1 + (d - 1) = out0.size + d := by omega
+      simp only [e2] at this
+      exact this
+
+theorem getElem_append_replicate_left (out : Array (Nat × Nat × Nat)) (b : Nat) (v : Nat × Nat × Nat) (k : Nat)
+    (hk : k < out.size) : (out ++ Array.replicate b v)[k]'(by simp; omega) = out[k] := by
+  simp [Array.getElem_append_left hk]
+
+/-- **`_jitcontinuous_perievent`, every epoch**: with `c0[k]` samples and `c1[k]` events in epoch `k` (the counters of
+`jitrestrict_with_count`), the entry of event `e` of epoch `k` is a `PcEntry` over the sample window of THAT epoch
+(`[psum c0 k, psum c0 k + c0[k])`) when the epoch holds samples, and the all-zero entry otherwise -/
+theorem pcK_entries (ts tt : Array Int) (hsq : Sorted ts) (hst : Sorted tt) (c0 c1 : Array Nat) (w0 w1 m : Nat)
+    (h0 : c0.size = m) (h1 : c1.size = m) (hs0 : C15.asum c0 = ts.size) (hs1 : C15.asum c1 = tt.size)
+    (k : Nat) (out0 : Array (Nat × Nat × Nat)) (hsz : out0.size = psum c1 k) (hkm : k ≤ m)
+    (out : Array (Nat × Nat × Nat)) (hr : pcK ts tt c0 c1 w0 w1 m k out0 = .ok out) :
+    out.size = tt.size ∧
+    (∀ e, (he : e < out0.size) → (he2 : e < out.size) → out[e] = out0[e]) ∧
+    ∀ k', k ≤ k' → (hk' : k' < m) → ∀ d, (hd : d < c1[k']'(by omega)) →
+      ∃ he : psum c1 k' + d < out.size, ∃ het : psum c1 k' + d < tt.size,
+        if 0 < c0[k']'(by omega) then
+          PcEntry ts w0 w1 (psum c0 k') (psum c0 k' + c0[k']'(by omega)) tt[psum c1 k' + d] out[psum c1 k' + d]
+        else out[psum c1 k' + d] = (0, 0, 0) := by
+  induction hn : m - k generalizing k out0 with
+  | zero =>
+    unfold pcK at hr
+    have hnk : ¬ k < m := by omega
+    simp only [dif_neg hnk] at hr
+    cases hr
+    have hkm' : k = m := by omega
+    subst hkm'
+    have : psum c1 k = C15.asum c1 := by
+      unfold psum C15.asum; rw [← h1]
+      have : c1.size = c1.toList.length := by simp
+      rw [this, List.take_length]
+    refine ⟨by rw [hsz, this, hs1], fun e he he2 => rfl, fun k' hk1 hk2 => by omega⟩
+  | succ n ih =>
+    have hk : k < m := by omega
+    unfold pcK at hr
+    have hr1 : rdN c0 k = .ok (c0[k]'(by omega)) := by simp [rdN, show k < c0.size by omega]
+    have hr2 : rdN c1 k = .ok (c1[k]'(by omega)) := by simp [rdN, show k < c1.size by omega]
+    have hle1 : psum c0 k + c0[k]'(by omega) ≤ ts.size := by
+      have := C15.psum_le_asum c0 (k+1)
+      rw [C15.psum_succ c0 k (by omega), hs0] at this; exact this
+    have hle2 : psum c1 k + c1[k]'(by omega) ≤ tt.size := by
+      have := C15.psum_le_asum c1 (k+1)
+      rw [C15.psum_succ c1 k (by omega), hs1] at this; exact this
+    simp only [dif_pos hk, hr1, hr2, bind, Except.bind] at hr
+    split at hr
+    · rename_i hpos
+      rw [dif_pos ⟨hle1, hle2⟩, dif_pos (by omega)] at hr
+      -- the events of this epoch
+      obtain ⟨p1, p2, p3⟩ := pcI_nearest ts tt hsq hst w0 w1 (psum c0 k) (psum c0 k + c0[k]'(by omega))
+        (psum c1 k + c1[k]'(by omega)) hle1 hle2 (psum c0 k) (psum c1 k) (by omega) (Nat.le_refl _) out0
+        (fun _ q h1 h2 => by omega)
+      have hsz' : (pcI ts tt w0 w1 (psum c0 k) (psum c0 k + c0[k]'(by omega)) (psum c1 k + c1[k]'(by omega)) hle1 hle2
+          (psum c0 k) (psum c1 k) (by omega) out0).size = psum c1 (k+1) := by
+        rw [p1, hsz, C15.psum_succ c1 k (by omega)]; omega
+      obtain ⟨q1, q2, q3⟩ := ih (k+1) _ hsz' (by omega) hr (by omega)
+      refine ⟨q1, fun e he he2 => ?_, fun k' hk1 hk2 d hd => ?_⟩
+      · rw [q2 e (by rw [p1]; omega) he2, p2 e he]
+      · rcases Nat.eq_or_lt_of_le hk1 with e | e
+        · subst e
+          have hlt : psum c1 k + d < (pcI ts tt w0 w1 (psum c0 k) (psum c0 k + c0[k]'(by omega)) (psum c1 k + c1[k]'(by omega)) hle1 hle2
+              (psum c0 k) (psum c1 k) (by omega) out0).size := by rw [p1, hsz]; omega
+          refine ⟨by rw [q1]; omega, by omega, ?_⟩
+          simp only [hpos.1, if_true]
+          rw [q2 (psum c1 k + d) hlt (by rw [q1]; omega)]
+          have := p3 d (by omega) (by rw [hsz]; exact hlt)
+          simp only [hsz] at this
+          exact this
+        · exact q3 k' (by omega) hk2 d hd
+    · rename_i hnpos
+      have hsz' : (out0 ++ Array.replicate (c1[k]'(by omega)) ((0, 0, 0) : Nat × Nat × Nat)).size = psum c1 (k+1) := by
+        simp [hsz, C15.psum_succ c1 k (by omega)]
+      obtain ⟨q1, q2, q3⟩ := ih (k+1) _ hsz' (by omega) hr (by omega)
+      refine ⟨q1, fun e he he2 => ?_, fun k' hk1 hk2 d hd => ?_⟩
+      · rw [q2 e (by simp; omega) he2]
+        exact getElem_append_replicate_left out0 _ _ e he
+      · rcases Nat.eq_or_lt_of_le hk1 with e | e
+        · subst e
+          refine ⟨by rw [q1]; omega, by omega, ?_⟩
+          have hlt : psum c1 k + d < (out0 ++ Array.replicate (c1[k]'(by omega)) ((0, 0, 0) : Nat × Nat × Nat)).size := by
+            simp [hsz]; omega
+          have hz : ¬ 0 < c0[k]'(by omega) := by
+            intro hh; exact hnpos ⟨hh, by omega⟩
+          simp only [hz, if_false]
+          rw [q2 (psum c1 k + d) hlt (by rw [q1]; omega)]
+          rw [Array.getElem_append_right (by omega)]
+          simp
+        · exact q3 k' (by omega) hk2 d hd
+
+/-- **layout of one column**: with the stored slice `[lo, hi)` written from row `start_w`, row `o` of the
+`(w0 + w1 + 1)`-row window holds the sample `o - w0` steps from `tpos` exactly when that position lies inside the
+epoch's samples `[startT, maxt)`; every other row keeps NaN -/
+theorem pc_layout (w0 w1 startT maxt tpos o : Nat) (h1 : startT ≤ tpos) (h2 : tpos < maxt) :
+    let left := min w0 (tpos - startT)
+    let right := min w1 (maxt - tpos - 1)
+    ((w0 - left ≤ o ∧ o < w0 - left + ((tpos + right + 1) - (tpos - left))) ↔
+      (o ≤ w0 + w1 ∧ startT + w0 ≤ tpos + o ∧ tpos + o < maxt + w0)) ∧
+    (w0 - left ≤ o → (tpos - left) + (o - (w0 - left)) + w0 = tpos + o) := by
+  intro left right
+  constructor
+  · constructor <;> (intro h; omega)
+  · intro h; omega
 
 end Pyn.C16
